@@ -4,7 +4,7 @@ import json
 from .. import common as C
 
 LEVEL = "proof"
-N = {"quick": 20000, "thorough": 500000}
+N = {"quick": 300000, "thorough": 500000}
 
 
 def classify(case, go_err, spec_err):
